@@ -280,6 +280,47 @@ pub fn dm_logical(pages: usize, seed: usize) -> Vec<u8> {
     d
 }
 
+/// four bytes `t` such that crc32c(prefix ++ t) == target (reverse table walk; always exists)
+fn forge_tail(prefix: &[u8], target: u32) -> Option<[u8; 4]> {
+    // forward state after the prefix (before the final inversion)
+    let mut table = [0u32; 256];
+    for i in 0..256u32 {
+        let mut c = i;
+        for _ in 0..8 {
+            c = if c & 1 == 1 { (c >> 1) ^ 0x82F6_3B78 } else { c >> 1 };
+        }
+        table[i as usize] = c;
+    }
+    let mut state: u32 = !0;
+    for b in prefix {
+        state = table[((state ^ *b as u32) & 0xff) as usize] ^ (state >> 8);
+    }
+    // wanted final state
+    let mut want = !target;
+    // walk backwards: find the table indices whose top bytes match
+    let mut idx = [0usize; 4];
+    for k in (0..4).rev() {
+        let top = (want >> 24) as u8;
+        let i = (0..256).find(|i| (table[*i] >> 24) as u8 == top)?;
+        idx[k] = i;
+        want = (want ^ table[i]) << 8;
+    }
+    // now run forward choosing bytes that hit those indices
+    let mut out = [0u8; 4];
+    let mut st = state;
+    for k in 0..4 {
+        out[k] = (idx[k] as u32 ^ (st & 0xff)) as u8;
+        st = table[idx[k]] ^ (st >> 8);
+    }
+    let mut check = prefix.to_vec();
+    check.extend_from_slice(&out);
+    if ref_crc32c(&check) == target {
+        Some(out)
+    } else {
+        None
+    }
+}
+
 /// parse `pos:xx,pos:xx` alterations
 pub fn parse_alter(spec: &str) -> Vec<(usize, u8)> {
     if spec == "-" {
@@ -801,6 +842,36 @@ pub fn generate(sink: &mut Sink, seed: u64, thorough: bool) {
         }
         let alter: Vec<(usize, u8)> = merged.into_iter().filter(|(_, m)| *m != 0).collect();
         dm_case(sink, &mut rng, pages, seed, alter, tag);
+    }
+    // checksum look-alikes: the stored checksum replaced by other encodings of the page's CRC-32C
+    // (byte-reversed = little-endian, bit-inverted, CRC without the final inversion, +1, rotated,
+    // zero, all ones) and a forged payload tail whose CRC equals the stored bytes read little-endian —
+    // all must be rejected: only the big-endian CRC-32C of the payload makes a page valid
+    for k in 0..(if thorough { 60 } else { 12 }) {
+        let pages = 1 + (k % 3) as usize;
+        let seed = rng.below(250) as usize;
+        let pg = rng.below(pages as u64) as usize;
+        let orig = ref_pages(&dm_logical(pages, seed));
+        let page = &orig[pg * 1024..(pg + 1) * 1024];
+        let crc = ref_crc32c(&page[..1020]);
+        let variants: Vec<[u8; 4]> = vec![crc.to_le_bytes(), (!crc).to_be_bytes(), (!crc).to_le_bytes(), crc.wrapping_add(1).to_be_bytes(), crc.rotate_left(8).to_be_bytes(), [0; 4], [0xff; 4], crc.swap_bytes().rotate_left(16).to_be_bytes()];
+        for v in variants {
+            let alter: Vec<(usize, u8)> = (0..4).map(|j| (pg * 1024 + 1020 + j, page[1020 + j] ^ v[j])).filter(|(_, m)| *m != 0).collect();
+            if !alter.is_empty() {
+                dm_case(sink, &mut rng, pages, seed, alter, "dm_checksum_lookalike");
+            }
+        }
+        // forged tail: find 4 payload bytes (the last ones) such that the CRC of the payload equals the
+        // stored checksum bytes read as little-endian; CRC-32C is linear, so solve by brute force over
+        // the 2^32 tails is too slow — use the algebra: try the 4-byte tail that makes crc == target
+        // through the standard reverse-CRC table walk
+        let target = u32::from_le_bytes([page[1020], page[1021], page[1022], page[1023]]);
+        if let Some(tail) = forge_tail(&page[..1016], target) {
+            let alter: Vec<(usize, u8)> = (0..4).map(|j| (pg * 1024 + 1016 + j, page[1016 + j] ^ tail[j])).filter(|(_, m)| *m != 0).collect();
+            if !alter.is_empty() {
+                dm_case(sink, &mut rng, pages, seed, alter, "dm_forged_tail_le");
+            }
+        }
     }
     // the straddling-burst witness of the big-endian checksum (format-level finding), on an
     // all-zero-tail page: payload tail 00 c0 2e 8d 5e and first checksum byte differ within 32 bits
